@@ -67,8 +67,40 @@ RoleExcept(cls) ==
     [] cls = "char@pi"      -> {}
     [] cls = "char@cdata"   -> {}
 
+\* Sites of the grammar where ONE character class decides whether a document is accepted - the class as the
+\* parser applies it there, not as a predicate of its own (the two can differ: a private fast path, the scanner of
+\* a neighbouring production, a look-ahead with the wrong class):
+\*   encname1@decl    <?xml version='1.0' encoding='Ca'?>     [81] first character: [A-Za-z]
+\*   encname@decl     <?xml version='1.0' encoding='aCa'?>    [81] continuation
+\*   versionnum@decl  <?xml version='1.C'?>                   [26] [0-9]+
+\*   pubid@dq / @sq   <!DOCTYPE r PUBLIC "aCb" "s"> / 'aCb'   [12] [13] PubidChar (minus the delimiter)
+\*   namestart@elem   <Ca/>                                   [4] minus ':' (element and attribute names are QNames)
+\*   namechar@elem    <aCb xmlns:a='u'/>                      [4a]
+\*   namestart@attr   <r Ca='v'/>                             [4] minus ':', or white space (then the name is a)
+\*   namechar@attr    <r xmlns:a='u' aCb='v'/>                [4a]
+\*   namechar@xmlns   <r xmlnsCa='u'/>                        [4a] (':' gives a declaration, anything else a longer name)
+SiteClasses == {"encname1@decl", "encname@decl", "versionnum@decl", "pubid@dq", "pubid@sq", "namestart@elem",
+                "namechar@elem", "namestart@attr", "namechar@attr", "namechar@xmlns"}
+InSite(cls, c) ==
+  CASE cls = "encname1@decl"   -> IsEncStart(c)
+    [] cls = "encname@decl"    -> IsEncName(c)
+    [] cls = "versionnum@decl" -> c >= 48 /\ c <= 57
+    [] cls = "pubid@dq"        -> IsPubid(c) /\ c # 34
+    [] cls = "pubid@sq"        -> IsPubid(c) /\ c # 39
+    [] cls = "namestart@elem"  -> IsNameStart(c) /\ c # 58
+    [] cls = "namestart@attr"  -> (IsNameStart(c) /\ c # 58) \/ IsWs(c)
+    [] cls \in {"namechar@elem", "namechar@attr", "namechar@xmlns"} -> IsNameChar(c)
+SiteRanges(cls) ==
+  CASE cls = "encname1@decl"   -> {<<65, 90>>, <<97, 122>>}
+    [] cls = "encname@decl"    -> EncNameRanges
+    [] cls = "versionnum@decl" -> {<<48, 57>>}
+    [] cls \in {"pubid@dq", "pubid@sq"} -> PubidRanges \cup {<<34, 34>>, <<39, 39>>}
+    [] cls \in {"namestart@elem", "namestart@attr"} -> NameStartRanges \cup {<<9, 10>>, <<13, 13>>, <<32, 32>>}
+    [] OTHER -> NameStartRanges \cup NameExtraRanges
+
 InClass(cls, c) ==
-  CASE cls \in CharRoles -> IsChar(c) /\ c \notin RoleExcept(cls)
+  CASE cls \in SiteClasses -> InSite(cls, c)
+    [] cls \in CharRoles -> IsChar(c) /\ c \notin RoleExcept(cls)
     [] cls = "char"      -> IsChar(c)
     [] cls = "namestart" -> IsNameStart(c)
     [] cls = "namechar"  -> IsNameChar(c)
@@ -76,7 +108,8 @@ InClass(cls, c) ==
     [] cls = "encname"   -> IsEncName(c)
 
 RangesOf(cls) ==
-  CASE cls \in CharRoles -> CharRanges \cup { <<x, x>> : x \in RoleExcept(cls) }
+  CASE cls \in SiteClasses -> SiteRanges(cls)
+    [] cls \in CharRoles -> CharRanges \cup { <<x, x>> : x \in RoleExcept(cls) }
     [] cls = "char"      -> CharRanges
     [] cls = "namestart" -> NameStartRanges
     [] cls = "namechar"  -> NameStartRanges \cup NameExtraRanges
